@@ -610,6 +610,47 @@ fn cross_block_programs() -> Vec<(String, String)> {
     out
 }
 
+/// Family `fixed-string-byref` (after a wave-12 seed: the conversion branch of an argument's code popped the variable
+/// path a second time, so `PushNamedByRef` found the path stack empty): the one argument shape that is by reference, has
+/// subscripts AND needs a conversion — an element of a `STRING * n` array, or a `STRING * n` field of an element of an
+/// array of records, passed to a `X$` parameter of a SUB / FUNCTION — at every kind of call position (statement, PRINT
+/// item, right-hand side, subscript of an assignment target, argument of another call, condition), inside loops and
+/// procedures, with plain controls (scalar `STRING * n`, element of a `$` array).  Returns (name, program).
+fn fixed_string_byref_programs() -> Vec<(String, String)> {
+    let decls = "TYPE Item\n  Tag AS STRING * 3\n  Qty AS INTEGER\nEND TYPE\nDIM Codes(1 TO 3) AS STRING * 4\nDIM Grid(1 TO 2, 0 TO 1) AS STRING * 2\nDIM Items(1 TO 2) AS Item\nDIM Plain$(1 TO 3)\nDIM One AS STRING * 5\nDIM Slots(0 TO 9) AS INTEGER\n\
+                 Codes(1) = \"ab\"\nCodes(2) = \"cdef\"\nGrid(2, 1) = \"z\"\nItems(1).Tag = \"q\"\nItems(2).Tag = \"rst\"\nPlain$(1) = \"pp\"\nOne = \"one\"\nK% = 1\n";
+    let procs = "SUB Norm (S$)\n  S$ = UCASE$(RTRIM$(S$)) + \"-\"\nEND SUB\nFUNCTION TagLen% (T$)\n  T$ = RTRIM$(T$)\n  TagLen% = LEN(T$)\nEND FUNCTION\n\
+                 SUB Two (A$, B$)\n  A$ = B$ + A$\n  B$ = \"!\"\nEND SUB\nSUB Outer (N%)\n  DIM L(1 TO 2) AS STRING * 3\n  L(N%) = \"x\"\n  Norm L(N%)\n  PRINT \"[\"; L(N%); \"]\"; TagLen%(L(1))\nEND SUB\n";
+    let actuals: [(&str, &str); 7] = [
+        ("elem", "Codes(K%)"),
+        ("elem-const", "Codes(2)"),
+        ("elem-2d", "Grid(K% + 1, 1)"),
+        ("elem-field", "Items(K%).Tag"),
+        ("elem-field-const", "Items(2).Tag"),
+        ("control-scalar", "One"),
+        ("control-plain-elem", "Plain$(K%)"),
+    ];
+    let mut out = vec![];
+    for (an, a) in actuals {
+        let positions: Vec<(&str, String)> = vec![
+            ("sub-call", format!("Norm {a}\nPRINT \"[\"; {a}; \"]\"\n")),
+            ("call-keyword", format!("CALL Norm({a})\nPRINT \"[\"; {a}; \"]\"\n")),
+            ("print-item", format!("PRINT TagLen%({a}); \"[\"; {a}; \"]\"\n")),
+            ("rhs", format!("N% = TagLen%({a}) + 1\nPRINT N%\n")),
+            ("target-subscript", format!("Slots(TagLen%({a})) = 7\nPRINT Slots(0); Slots(1); Slots(2); Slots(3)\n")),
+            ("arg-of-call", format!("PRINT LEN(STR$(TagLen%({a})))\n")),
+            ("condition", format!("IF TagLen%({a}) > 0 THEN\nPRINT \"y\"\nELSE\nPRINT \"n\"\nEND IF\n")),
+            ("two-args", format!("Two {a}, Codes(1)\nPRINT \"[\"; {a}; \"][\"; Codes(1); \"]\"\n")),
+            ("in-for", format!("FOR I% = 1 TO 2\nNorm {a}\nPRINT TagLen%({a})\nNEXT\n")),
+            ("in-select", format!("SELECT CASE TagLen%({a})\nCASE 0\nPRINT \"zero\"\nCASE ELSE\nNorm {a}\nPRINT \"[\"; {a}; \"]\"\nEND SELECT\n")),
+        ];
+        for (pn, body) in positions {
+            out.push((format!("{}/{}", an, pn), format!("' fixed-string-byref {}/{}\n{}{}Outer 1\nPRINT \"end\"\n{}", an, pn, decls, body, procs)));
+        }
+    }
+    out
+}
+
 fn shape_signature(text: &str) -> String {
     // construct multiset: which statement keywords occur
     let u = text.to_ascii_uppercase();
@@ -746,6 +787,15 @@ fn main() {
             programs.push((t, "cross-block"));
         }
     }
+    // family `fixed-string-byref`: all of it in both tiers
+    {
+        let all = fixed_string_byref_programs();
+        rep.bump_by("programs.fixed-string-byref", all.len() as u64);
+        for (name, t) in all {
+            rep.bump(&format!("fixed-string-byref.actual.{}", name.split('/').next().unwrap_or("?")));
+            programs.push((t, "fixed-string-byref"));
+        }
+    }
     let n_grid = if thorough { 1500 } else { 150 };
     for _ in 0..n_grid {
         programs.push((rb_harness::gen_prog::grid(&mut rng), "grid"));
@@ -832,7 +882,7 @@ fn main() {
                 if *origin == "cross-block" {
                     rep.bump("cross-block.rejected-by-front-end");
                 }
-                if *origin == "faults" || *origin == "marks" || *origin == "arg-faults" || *origin == "block-labels" || *origin == "writeback-faults" {
+                if *origin == "faults" || *origin == "marks" || *origin == "arg-faults" || *origin == "block-labels" || *origin == "writeback-faults" || *origin == "fixed-string-byref" {
                     rep.case(Some(text.clone()));
                     rep.fail(Failure {
                         kind: Kind::ModelVsImpl,
